@@ -79,7 +79,9 @@ def _isinstance(ex, x, t, w):
         c.val(x.term)
         tt = x.term
         table = {"str": c.is_str(tt), "tuple": c.is_tuple(tt), "list": c.is_list(tt), "dict": c.is_dict(tt),
-                 "Iterable": c.iterable(tt), "Hashable": c.hashable(tt), "int": c.intlike(tt)}
+                 "Iterable": c.iterable(tt), "Hashable": c.hashable(tt), "int": c.is_int(tt),
+                 "np.integer": c.is_int(tt), "numpy.integer": c.is_int(tt), "float": z3.And(c.floatable(tt), z3.Not(c.is_int(tt))),
+                 "np.floating": z3.And(c.floatable(tt), z3.Not(c.is_int(tt)))}
         if name in table:
             return table[name]
         if name in ("Hypergraph", "DiHypergraph", "SimplicialComplex", "set", "frozenset"):
